@@ -17,11 +17,11 @@ ASSUMPTIONS = [
     "recursively and in order",
     "comparing a node with itself is outside the statement ('two distinct trees')",
 ]
-REQUIRED = ["pairs_with_identical_ids", "pairs_equal", "pairs_different", "difference_at_child_position_ge1", "difference_at_depth_ge2", "symmetric_checked", "subtree_pairs"]
+REQUIRED = ["pairs_with_identical_ids", "pairs_equal", "pairs_different", "difference_at_child_position_ge1", "difference_at_depth_ge2", "symmetric_checked", "subtree_pairs", "pairs_compared_before_the_edit"]
 EXHAUSTIVE = {"quick": False, "thorough": False}
 
 KINDS = ("attr_reorder", "extras_reorder", "ns_reorder", "attr_type", "name", "content", "content_none", "tail", "prefix", "attr_add", "attr_del", "attr_val", "extras_add", "extras_val",
-         "ns_add", "ns_del", "ns_val", "child_append", "child_insert0", "child_remove_last", "child_remove_first", "child_swap", "reparent_up", "reparent_down")
+         "ns_add", "ns_del", "ns_val", "child_append", "child_insert0", "child_remove_last", "child_remove_first", "child_swap", "reparent_up", "reparent_down", "attr_inplace", "extras_inplace", "ns_inplace")
 
 
 def plan(tier, seed):
@@ -141,6 +141,16 @@ def apply_difference(rng, n, kind):
         if not n.children:
             return False
         n.remove_child(n.children[0])
+    elif kind in ("attr_inplace", "extras_inplace", "ns_inplace"):
+        # the dictionaries are public and mutable: an entry written into them directly, not through a setter or add_* method
+        d = {"attr_inplace": n.attributes, "extras_inplace": n.extras, "ns_inplace": n.nsmap}[kind]
+        if kind == "ns_inplace":
+            d = n.nsmap = dict(n.nsmap)      # (a private map first: the map object may be shared with the parent)
+        if d and rng.random() < 0.5:
+            k = rng.choice(list(d))
+            d[k] = str(d[k]) + "~"
+        else:
+            d["verif-inplace"] = "1"
     elif kind == "reparent_up":
         # the last child of n becomes n's next sibling: the same nodes in the same document order, another shape
         p = n.parent
@@ -205,6 +215,13 @@ def sweep(ctx, t, exhaustive):
             if j < 3:
                 ask(ctx, a, c, lambda: {"tree": plain, "kind": "json-reload", "other": snapshot.to_plain(c)}, "json-reload")
         v_before = snapshot.value(c)
+        if j % 2 == 0:
+            # the pair has been compared before the edit (whatever a comparison remembers about a node is now in place)
+            try:
+                Node.is_equal(a, c), Node.is_equal(c, a)
+                ctx.count("pairs_compared_before_the_edit")
+            except Exception:
+                pass
         if not apply_difference(ctx.rng, target, kind):
             if c is not t:
                 emlkit.discard(c)
